@@ -1,4 +1,4 @@
 SPECIFICATION Spec
 CONSTANTS Mutant = "skipverify-not-forced-off"
-INVARIANTS PropertyHolds NoSilentSkip UntrustedCA NeverOldTLS CertPresented
+INVARIANTS PropertyHolds NoSilentSkip UntrustedCA NeverOldTLS CertPresented StableIdentity
 CHECK_DEADLOCK FALSE
